@@ -336,13 +336,18 @@ def analyse(case, res, terms, out):
         raise fw.Broken("generator produced a function that raises: %r %r" % (case.get("plain") or case.get("lam"), exp))
     label = {"case": case.get("text") or case.get("file_body"), "mode": case["mode"]}
 
-    cur = {"exp": exp, "params": res["expected_params"]}
+    cur = {"exp": exp, "params": res["expected_params"], "sig": res.get("expected_sig")}
 
     def behaviour(snap, what):
         if snap.get("values") != cur["exp"]:
             pf("%s: values differ from the plain function: %r vs %r" % (what, snap.get("values"), cur["exp"]))
         if snap.get("params") != cur["params"]:
             pf("%s: parameters %r != %r" % (what, snap.get("params"), cur["params"]))
+        if cur["sig"] is not None and snap.get("sig") != cur["sig"]:
+            # kinds, defaults and the annotation OBJECTS of the captured function (an annotation that became a string
+            # means the definition was compiled under other compiler flags than the text says)
+            pf("%s: signature/annotations of the captured function %r != those of the plain function %r"
+               % (what, snap.get("sig"), cur["sig"]))
 
     if not is_lambda:
         t = case["t"]
@@ -453,7 +458,7 @@ def analyse(case, res, terms, out):
                 terms.append((dict(label, op="recreate"), "(TLamRaw true %s %s %s %s)" % (cs(before), cN(0), cN(len(before.encode("utf-8"))), cs(snap["source"]))))
         elif what == "redefine":
             t, info = op["t"], op["info"]
-            cur["exp"], cur["params"] = st["expected"], st["expected_params"]
+            cur["exp"], cur["params"], cur["sig"] = st["expected"], st["expected_params"], st.get("expected_sig")
             if any(v[0] != "ok" for v in cur["exp"]):
                 raise fw.Broken("generator produced a function that raises: %r" % (op["plain"],))
             argsets = op["args"]
